@@ -126,6 +126,33 @@ class G2(ga.G):
             return self.add(k='cat', src=[ga_, gb_], dim=1)
         return self.add(k='add', src=[a, b])
 
+    def shared_cat(self, cur):
+        """a channel-wise concatenation whose operands descend from ONE searchable layer through features-propagating
+        ops (they carry the very same features calculator), or are the same tensor, consumed by a searchable layer"""
+        rng = self.rng
+        y = self.same_shape_conv(cur)
+        y = self.add(k=rng.choice(['relu', 'relu6', 'identity']), src=y)
+        sp = self.sh(y)[1:]
+        kinds = ['act', 'act', 'bn', 'three', 'dup'] + (['pools', 'pools'] if min(sp) >= 4 else [])
+        kind = rng.choice(kinds)
+        self.prod.append('shared-cat:' + kind)
+        if kind == 'pools':
+            ops = [self.add(k='avgpool%dd' % self.dim, src=y, ks=2), self.add(k='maxpool%dd' % self.dim, src=y, ks=2)]
+            if rng.random() < 0.3:
+                ops.reverse()
+        elif kind == 'act':
+            z = self.add(k=rng.choice(['relu', 'relu_f', 'relu6', 'dropout']), src=y)
+            ops = [y, z] if rng.random() < 0.6 else [z, y]
+        elif kind == 'bn':
+            c = self.sh(y)[0]
+            ops = [y, self.add(k='bn1d' if len(self.sh(y)) <= 2 else 'bn2d', src=y, c=c)]
+        elif kind == 'three':
+            ops = [y, self.add(k='relu', src=y), self.add(k='identity', src=y)]
+        else:
+            ops = [y, y]
+        cur = self.add(k='cat', src=ops, dim=1)
+        return self.act(self.bn(self.conv(cur, stride_ok=False), 0.3))
+
     def partial_flatten(self, cur):
         """(C,H,W) -> (C*H, W) followed by a (causally padded) Conv1d; from here on the network is 1-D"""
         self.prod.append('partial-flatten')
@@ -145,7 +172,7 @@ class G2(ga.G):
         return self.add(k='add', src=[self.act(l), b]) if rng.random() < 0.6 else self.add(k='cat', src=[l, b], dim=1)
 
 
-def gen(rng, dim=None, depth=None, p_twice=0.35, p_pflat=0.0, **opts):
+def gen(rng, dim=None, depth=None, p_twice=0.35, p_pflat=0.0, p_scat=0.0, **opts):
     """gen_arch.gen with the extra production (probability p_twice per network, at a random body position)"""
     dim = dim or rng.choice([1, 2])
     g = G2(rng, dim, opts)
@@ -165,7 +192,10 @@ def gen(rng, dim=None, depth=None, p_twice=0.35, p_pflat=0.0, **opts):
     nb = depth if depth is not None else rng.randint(1, 4)
     tw = rng.randrange(nb) if rng.random() < p_twice else -1
     pf = rng.randrange(nb + 1) if (dim == 2 and rng.random() < p_pflat) else -1
+    sc = rng.randrange(nb) if rng.random() < p_scat else -1
     for b in range(nb):
+        if b == sc:
+            cur = g.shared_cat(cur)
         if b == pf:
             cur = g.partial_flatten(cur)
         cur = g.twice(cur) if b == tw else g.block(cur)
